@@ -300,6 +300,15 @@ func (vc *VC) unop(fx *FuncCtx, x *ssa.UnOp, st *State, fr *Frame) Val {
 			}
 		}
 		lv := st.load(p)
+		if _, isMap := under(elem).(*types.Map); isMap && vc.locksafe {
+			// a map read out of a lock-guarded field: changing the map (m[k] = v, delete) is a write to the guarded state
+			if mt, ok := lv.(*Term); ok {
+				if vc.guardedMaps == nil {
+					vc.guardedMaps = map[string]*PtrV{}
+				}
+				vc.guardedMaps[termKey(mt)] = p
+			}
+		}
 		if g, ok := x.X.(*ssa.Global); ok && g.Pkg != nil && g.Pkg.Pkg.Path() == "encoding/base64" {
 			if pt, ok := lv.(*Term); ok {
 				pad := int64('=')
@@ -1081,6 +1090,9 @@ func (vc *VC) mapUpdate(fx *FuncCtx, x *ssa.MapUpdate, st *State, fr *Frame) {
 	mt := under(x.Map.Type()).(*types.Map)
 	m := st.toTerm(vc.val(fx, fr, x.Map), x.Map.Type())
 	vc.check(fx, st, Not(Eq(m, IntC(0))), "assignment to entry in nil map", x.Pos())
+	if gp := vc.guardedMaps[termKey(m)]; gp != nil {
+		vc.lockCheck(fx, st, gp, true, x.Pos())
+	}
 	k := vc.mapKeyTerm(st, mt, vc.val(fx, fr, x.Key))
 	vc.mapStore(st, mt, m, k, vc.val(fx, fr, x.Value))
 }
